@@ -136,7 +136,7 @@ fn small_bfs_seeds(c: &Collector, g: (u32, u32)) -> Vec<Base> {
         regions: RegionSel::Some,
         modesets: vec![0, M_DECOM | M_IRM, M_DECAWM_OFF | M_DECSCNM],
         renditions: vec![vec![]],
-        stacks: vec![0, 1],
+        stacks: vec![0, 2],
         charsets: default_charsets(),
         hidden_cursor: false,
     };
@@ -461,7 +461,7 @@ pub fn c10(c: &Collector, g: &mut Guard) {
     c.bound("geometries", json!(gs));
     c.bound("bfs_depth", json!(depth));
     g.need(c, "display_calls");
-    g.need(c, "display_materialised_rows");
+    // (display_materialised_rows is informational only: it depends on the sparse representation)
     g.need(c, "grids_with_placeholder");
     g.need(c, "paired_equal");
     g.need(c, "bfs_display");
@@ -1260,7 +1260,10 @@ pub fn c16_judge(c: &Collector, t: &Trans, engine: &str, local: &mut Local) -> b
         Ok((s, post, _)) => {
             if same {
                 local.count("same_size");
-                if full_key(s) != full_key(t.pre_screen) {
+                // judged on the observable view (incl. dirty, raw cell strings); representation residue is
+                // the business of the BFS (anything hidden that resurfaces later disagrees with the model)
+                let _ = s;
+                if crate::snapshot::snap_raw(s) != crate::snapshot::snap_raw(t.pre_screen) {
                     let diffs = compare(t.pre, post, &Default::default(), &ALL_COMPS);
                     viol(
                         c,
@@ -1350,6 +1353,7 @@ pub fn c16(c: &Collector, g: &mut Guard) {
                     Op::Il(None),
                     Op::Dl(None),
                     Op::Draw("z".into()),
+                    Op::Draw("\u{30a2}".into()),
                     Op::Cup(Some(l), Some(cc)),
                     Op::Cup(None, None),
                     Op::SetMargins(Some(1), Some(2)),
